@@ -814,6 +814,12 @@ def datum_id_rule(rep, F):
                 rep.violation("DATUM-id", "PlutusData|ord-basis|%s" % ",".join(sorted(rd)), "PlutusData's hand-written Ord compares %s only: two datums with equal value but different preserved bytes (different hashes, both required by their inputs) collapse to one in every witness-set de-duplication" % sorted(rd), {})
 
 
+def datum_rules(rep, F):
+    datum_id_rule(rep, F)
+    datum_eq_rule(rep, F)
+    dedup_total_rule(rep, F)
+
+
 def hash_eq_rule(rep, F):
     """Hash/Eq contract for everything that is (part of) an element of a hash-based de-duplicating set"""
     rep.rule("HASH-EQ", "every type that is, or is contained in, an element of a hash-based de-duplicating set (the `dedup` HashSet of Certificates, Credentials, Ed25519KeyHashes, VotingProposals, Vkeywitnesses, BootstrapWitnesses) hashes no field that its equality ignores - no encoding-detail allowance here: equal elements must land in the same bucket, or the set holds (and writes) the same element twice while the decoder, which rebuilds the elements uniformly, collapses them")
@@ -992,3 +998,105 @@ def assetname_ord_rule(rep, F, RULE):
         rep.inst(RULE)
         if not any((c.to or "").endswith("AssetName as std::cmp::Ord>::cmp") or F.key(c.to or "") == "<AssetName as std::cmp::Ord>::cmp" for c in F.calls(fidp)):
             rep.violation(RULE, "AssetName::partial_cmp", "AssetName's PartialOrd does not delegate to its Ord", {})
+
+
+# ---- identity of datums outside the Ord-based de-duplication -------------------------------------------------------------
+_VALUE_ID_PRIM = re.compile(
+    r"(slice::<impl \[T\]>::(contains|starts_with|ends_with)|(HashSet|HashMap|LinkedHashMap|LinkedHashSet|IndexMap|IndexSet).*::(insert|contains|contains_key|entry|get|get_mut|remove|replace|take)"
+    r"|Vec::<T, A>::(dedup|dedup_by_key)|VecDeque::<T, A>::contains)$")
+
+
+def datum_eq_rule(rep, F):
+    """DATUM-eq: no library code decides whether a datum 'is already there' by value equality"""
+    rep.rule("DATUM-eq", "the identity of a witness datum is its Ord (value + the bytes it is written with, DATUM-id); PartialEq / Hash of PlutusData look at the decoded value only (and Hash at encoding details of nested lists that equality ignores). Every membership / de-duplication primitive that is instantiated over PlutusData and decides by PartialEq or Hash (slice contains, hash sets / maps, Vec::dedup, a direct == on datums) sits in the audited places - PlutusMap (a Plutus map is keyed by value), the public query PlutusList::contains, the comparison impls themselves - and the audited query has no caller inside the library: a builder or witness-set helper that skips, merges or keeps a datum on that basis makes the fee estimate, the script data hash and the emitted set disagree about which datums exist")
+    pd = [a for a in F.adts if a.endswith("plutus_data::PlutusData")]
+    if len(pd) != 1:
+        rep.lost("PlutusData not found")
+        return
+    PD = pd[0]
+    ALLOW_ADT = ("plutus_data::PlutusMap", "plutus_data::PlutusMapValues")
+    # audited by reading, one line of reason each (a site here is not a decision about which datums a witness set holds)
+    ALLOW_FN = {
+        "Redeemer::partially_eq": "MintBuilder's consistency gate for a repeated mint witness of one policy: a redeemer of different *value* is refused; on equal value the first redeemer stays and the second is used nowhere - redeemer data is not an element of the datum set",
+    }
+    QUERY = [f for f in F.by_key("PlutusList::contains")]
+    sites = 0
+    ord_sites = 0
+    for fid, fn in F.fns.items():
+        if fn.get("derive") or "/tests/" in (fn.get("file") or "") or "tests::" in fid or (fn.get("file") or "").startswith("src/tests"):
+            continue
+        for c in F.calls(fid):
+            ga = c.info.get("ga") or ""
+            to = c.to or ""
+            first = ga.strip("[]").split(",")[0].strip() if ga else ""
+            over_pd = first.endswith(PD) and ("<" not in first)
+            direct_eq = to in ("<%s as std::cmp::PartialEq>::eq" % PD, "<%s as std::cmp::PartialEq>::ne" % PD, "<%s as std::hash::Hash>::hash" % PD)
+            if over_pd and re.search(r"BTree(Set|Map).*::(insert|contains|contains_key|entry|get)$", to):
+                ord_sites += 1
+            if not ((over_pd and _VALUE_ID_PRIM.search(to)) or direct_eq):
+                continue
+            sites += 1
+            rep.inst("DATUM-eq")
+            owner = fn.get("self_adt") or ""
+            root = fid.split("::{closure")[0]
+            if any(owner.endswith(a) for a in ALLOW_ADT) or root in QUERY or F.key(root) in ALLOW_FN:
+                rep.allow("DATUM-eq")
+                continue
+            if (fn.get("impl_trait") or "").split("<")[0] in ("std::cmp::PartialEq", "std::hash::Hash", "std::cmp::Eq"):
+                rep.allow("DATUM-eq")
+                continue
+            rep.violation("DATUM-eq", "%s|%s" % (F.key(root), H_short(to)), "%s decides about a datum with %s, i.e. by PartialEq / Hash of the decoded value, not by the Ord every witness-set de-duplication uses: a datum built through the API and the same datum decoded from bytes (or two datums of equal value written with different bytes) are treated differently here than in the emitted witness set" % (F.key(root), to), {"line": c.line, "file": fn.get("file")})
+    for q in QUERY:
+        for fid, fn in F.fns.items():
+            if "/tests/" in (fn.get("file") or "") or "tests::" in fid or (fn.get("file") or "").startswith("src/tests") or fid.split("::{closure")[0] == q:
+                continue
+            for c in F.calls(fid):
+                if c.to == q:
+                    rep.inst("DATUM-eq")
+                    rep.violation("DATUM-eq", "%s|calls|PlutusList::contains" % F.key(fid.split("::{closure")[0]), "%s asks PlutusList::contains (value equality) whether a datum is present: the witness set tells datums apart by the bytes they are written with, so a datum of equal value but different bytes is treated as present although the emitted set will hold both" % F.key(fid.split("::{closure")[0]), {"line": c.line, "file": fn.get("file")})
+    rep.floor("DATUM-eq value-identity sites over PlutusData", 6, sites)
+    rep.floor("DATUM-eq ordered-set sites over PlutusData", 3, ord_sites)
+
+
+def dedup_total_rule(rep, F):
+    """DEDUP-total: the de-duplicating helpers de-duplicate on every path"""
+    rep.rule("DEDUP-total", "deduplicated_view / deduplicated_clone of PlutusList, NativeScripts and PlutusScripts reach their return only through the loop over the elements (the loop head dominates the return: no early exit for 'already a set' markers, which neither the decoder nor add() guarantees), and every push inside the loop is control dependent on the result of the ordered-set insert")
+    import e1_panicpath as _e1
+    import mustpass as _mp
+    for T in ("PlutusList", "NativeScripts", "PlutusScripts"):
+        for m in ("deduplicated_view", "deduplicated_clone"):
+            ids = F.by_key("%s::%s" % (T, m))
+            if len(ids) != 1:
+                rep.lost("%s::%s not found" % (T, m))
+                continue
+            fid = ids[0]
+            fn = F.fns[fid]
+            calls = F.calls(fid)
+            heads = [c for c in calls if (c.to or "").endswith("::into_iter") or (c.to or "").endswith("slice::<impl [T]>::iter")]
+            ins = [c for c in calls if re.search(r"BTreeSet.*::insert$", c.to or "")]
+            pushes = [c for c in calls if (c.to or "").endswith("Vec::<T, A>::push")]
+            rets = [bi for bi, bb in enumerate(fn["bbs"]) if bb["t"][1] in ("ret", "return") and not bb["c"]]
+            if not heads or not ins or not pushes or not rets:
+                rep.lost("%s::%s: loop / insert / push / return not recognised (%d %d %d %d)" % (T, m, len(heads), len(ins), len(pushes), len(rets)))
+                continue
+            rep.inst("DEDUP-total")
+            for r in rets:
+                if not any(_mp.dominated_by(fn, r, h.bb) for h in heads):
+                    rep.violation("DEDUP-total", "%s::%s|early-exit" % (T, m), "%s::%s can return without walking its elements (the return is not dominated by the loop over the elements): on that path the list is handed on as it is - e.g. a list decoded from a tag-258 set that repeats a datum, or one that add() extended afterwards, keeps its duplicates through TransactionWitnessSet's setter and is written with them" % (T, m), {})
+            gates = [g for g in (_mp.bool_gate(F, fid, c) for c in ins) if g]
+            for p in pushes:
+                deps = _mp.control_deps(F, fid, p.bb)
+                sw = set()
+                for c in ins:
+                    # the switch consuming the insert's bool
+                    cur = c.target
+                    for _ in range(8):
+                        if cur is None:
+                            break
+                        t = fn["bbs"][cur]["t"]
+                        if t[1] == "switch":
+                            sw.add(cur)
+                            break
+                        cur = t[2] if t[1] == "goto" else t[3] if t[1] == "drop" else None
+                if not gates or not (deps & sw):
+                    rep.violation("DEDUP-total", "%s::%s|push-ungated" % (T, m), "%s::%s pushes an element without the ordered-set insert deciding it" % (T, m), {})
